@@ -298,7 +298,11 @@ impl<'a, 'b> Adv<'a, 'b> {
         // certificates signed by the Byzantine authorities only: below the quorum, or padded up to
         // the quorum weight by repeating them
         let mut byz = self.byz.clone();
-        if self.t.chance(1, 2) {
+        // 0: Byzantine signers only (below the quorum); 1: padded up to the quorum weight by repeating
+        // them; 2 / 3: certificates without any vote, claiming round 0 (a "genesis" certificate naming
+        // a real block) or the block's round
+        let cert_mode = self.t.weighted(&[3, 3, 1, 1]);
+        if cert_mode == 1 {
             let mut k = 0;
             while self.w.stake_of(&self.byz) * ((byz.len() / self.byz.len()) as u64) < self.w.quorum() + 1 && k < 64 {
                 byz.extend(self.byz.clone());
@@ -306,10 +310,20 @@ impl<'a, 'b> Adv<'a, 'b> {
             }
             self.stat("padded-certificate");
         }
+        if cert_mode >= 2 {
+            self.stat("voteless-certificate");
+        }
+        let fake = |w: &World, b: &Block, byz: &[usize]| -> QC {
+            match cert_mode {
+                2 => QC { hash: b.digest(), round: 0, votes: Vec::new() },
+                3 => QC { hash: b.digest(), round: b.round, votes: Vec::new() },
+                _ => w.qc(b, byz),
+            }
+        };
         let x0 = self.w.block(b1, r, qc, None, Vec::new());
-        let fake0 = self.w.qc(&x0, &byz);
+        let fake0 = fake(&self.w, &x0, &byz);
         let x1 = self.w.block(b2, r + 1, fake0, None, Vec::new());
-        let fake1 = self.w.qc(&x1, &byz);
+        let fake1 = fake(&self.w, &x1, &byz);
         let mut rr = r + 2;
         while !self.byz.contains(&self.w.leader(rr)) {
             rr += 1;
@@ -1004,7 +1018,7 @@ fn run(case: &Case, _ctx: &Ctx) -> Outcome {
     });
     let committing = commits.values().filter(|v| v.len() >= 2).count();
     let attack = stats.contains_key("equivocation") || stats.contains_key("selective-reveal") || stats.contains_key("stale-timeout") || stats.contains_key("late-proposal");
-    for k in ["forged-tc", "hopeful-sub-quorum-certificate", "template-double-chain", "template-late-after-timeout", "template-fabricated-chain", "two-certified-blocks-in-one-round", "equivocation", "double-vote", "selective-reveal", "bogus-certificate", "stale-timeout", "late-proposal", "partition", "wrong-leader-proposal", "replay", "cross-delivery"] {
+    for k in ["forged-tc", "voteless-certificate", "hopeful-sub-quorum-certificate", "template-double-chain", "template-late-after-timeout", "template-fabricated-chain", "two-certified-blocks-in-one-round", "equivocation", "double-vote", "selective-reveal", "bogus-certificate", "stale-timeout", "late-proposal", "partition", "wrong-leader-proposal", "replay", "cross-delivery"] {
         if stats.contains_key(k) {
             out.class(k);
         }
